@@ -379,16 +379,65 @@ class Theory:
                        SV.len(self.rout(A_, D)) + SV.len(A_) - self.rtake(A_, D) == SV.len(Bq)),
                    [self.aligned(A_, Bq, D, fn)])
 
+        # ---- typed JSON values: the three container types a diff can be applied to ----
+        self.is_list = f('is_list', V, B)
+        self.is_dict = f('is_dict', V, B)
+        self.is_str = f('is_str', V, B)
+        self.as_list = f('as_list', V, SV.sort)
+        self.of_list = f('of_list', SV.sort, V)
+        A1 = z3.Const('A1', SV.sort)
+        self.axiom('tags_exclusive', [v], z3.And(z3.Not(z3.And(self.is_list(v), self.is_dict(v))),
+                                                 z3.Not(z3.And(self.is_list(v), self.is_str(v))),
+                                                 z3.Not(z3.And(self.is_dict(v), self.is_str(v)))),
+                   [self.is_list(v)], )
+        self.axiom('of_list_tag', [A1], z3.And(self.is_list(self.of_list(A1)), self.as_list(self.of_list(A1)) == A1), [self.of_list(A1)])
+        self.axiom('as_list_inv', [v], z3.Implies(self.is_list(v), self.of_list(self.as_list(v)) == v), [self.as_list(v)])
+        # same python type => same container tag; diffable = both of the same container type
+        self.same_type = f('same_type', V, V, B)
+        self.axiom('same_type_tags', [v, w], z3.Implies(self.same_type(v, w),
+                                                        z3.And(self.is_list(v) == self.is_list(w), self.is_dict(v) == self.is_dict(w),
+                                                               self.is_str(v) == self.is_str(w))), [self.same_type(v, w)])
+        self.diffable = f('diffable', V, V, B)
+        self.axiom('diffable_def', [v, w],
+                   self.diffable(v, w) == z3.Or(z3.And(self.is_list(v), self.is_list(w)), z3.And(self.is_dict(v), self.is_dict(w)),
+                                                z3.And(self.is_str(v), self.is_str(w))),
+                   [self.diffable(v, w)])
+
         # ---- table contracts on differs / predicates (DESIGN 3, `Differ`) ----
         self.ground('apply_v_empty', z3.ForAll([v], self.apply_v(v, SE.empty) == v, patterns=[self.apply_v(v, SE.empty)]))
         self.good_differ = f('good_differ', self.Fn, B)
         pth = z3.Const('pth', self.Path)
+        # a good differ patches x into y for every pair of values of the same container type (list/list, dict/dict, str/str);
+        # it promises nothing for other pairs (nbdime's own `diff` raises on them)
         self.axiom('good_differ_use', [fn, v, w, pth],
-                   z3.Implies(self.good_differ(fn), self.apply_v(v, self.differ(fn, v, w, pth)) == w),
+                   z3.Implies(z3.And(self.good_differ(fn), self.diffable(v, w)), self.apply_v(v, self.differ(fn, v, w, pth)) == w),
                    [self.differ(fn, v, w, pth)])
         self.differs_ok = z3.Const('differs_ok', B)
         self.axiom('differs_ok_use', [pth], z3.Implies(self.differs_ok, self.good_differ(self.differs_at(pth))),
                    [self.differs_at(pth)])
+        # the configuration never declares a non-container value non-atomic (DiffConfig.is_atomic: explicit path entries aside,
+        # everything but str/list/dict is atomic)
+        self.atomic_ok = z3.Const('atomic_ok', B)
+        self.axiom('atomic_ok_use', [v, pth],
+                   z3.Implies(z3.And(self.atomic_ok, z3.Not(self.is_atomic(v, pth))),
+                              z3.Or(self.is_list(v), self.is_dict(v), self.is_str(v))),
+                   [self.is_atomic(v, pth)])
+        # a predicate only aligns non-atomic items of the same python type
+        self.pred_typed = f('pred_typed', self.Fn, self.Path, B)
+        self.axiom('pred_typed_use', [fn, pth, v, w],
+                   z3.Implies(z3.And(self.pred_typed(fn, pth), z3.Not(self.is_atomic(v, pth)), self.cmp(fn, v, w)), self.same_type(v, w)),
+                   [[self.cmp(fn, v, w), self.is_atomic(v, pth)]])
+        # any_cmp(F, x, y): some predicate of the list F holds for (x, y); preds_diffable(F): whatever F aligns is of one container type
+        SF = self.seq('fn')
+        F1 = z3.Const('F1', SF.sort)
+        self.any_cmp = f('any_cmp', SF.sort, V, V, B)
+        self.axiom('any_cmp_intro', [F1, i, v, w],
+                   z3.Implies(z3.And(0 <= i, i < SF.len(F1), self.cmp(SF.idx(F1, i), v, w)), self.any_cmp(F1, v, w)),
+                   [self.cmp(SF.idx(F1, i), v, w)])
+        self.preds_diffable = f('preds_diffable', SF.sort, B)
+        self.axiom('preds_diffable_use', [F1, v, w],
+                   z3.Implies(z3.And(self.preds_diffable(F1), self.any_cmp(F1, v, w)), self.diffable(v, w)),
+                   [self.any_cmp(F1, v, w)])
         self.pred_exact = f('pred_exact', self.Fn, self.Path, B)
         self.axiom('pred_exact_use', [fn, pth, v, w],
                    z3.Implies(z3.And(self.pred_exact(fn, pth), self.is_atomic(v, pth), self.cmp(fn, v, w)), v == w),
@@ -524,7 +573,6 @@ class Theory:
                               SE.idx(self.sorted_entries(em), i) == self.em_get(em, SS.idx(self.sorted_keys(self.em_dom(em)), i))),
                    [SE.idx(self.sorted_entries(em), i)])
         # type(x) is type(y), and the path-level lookups of diff_dicts
-        self.same_type = f('same_type', V, V, B)
         self.has_preds = f('has_preds', self.Path, B)
         self.path_norm = f('path_norm', self.Path, self.Path)
 
